@@ -200,7 +200,8 @@ func (g *gateway) close() { _ = g.srv.Close() }
 // client is one TLS client identity talking to one gateway.
 type client struct {
 	g    *gateway
-	cfg  *tls.Config
+	cfg  *tls.Config // the transport's (http.Transport adds "h2" to it when HTTP/2 is forced)
+	wcfg *tls.Config // the websocket dialer's: HTTP/1.1 only
 	tr   *http.Transport
 	mu   sync.Mutex
 	last string // local address of the most recently dialled connection
@@ -216,6 +217,8 @@ func (g *gateway) newClient(chain [][]byte, priv *ecdsa.PrivateKey, keepAlive bo
 	if len(chain) > 0 {
 		c.cfg.Certificates = []tls.Certificate{{Certificate: chain, PrivateKey: priv}}
 	}
+	c.wcfg = c.cfg.Clone()
+	c.wcfg.NextProtos = []string{"http/1.1"}
 	c.tr = &http.Transport{TLSClientConfig: c.cfg, DisableKeepAlives: !keepAlive, MaxConnsPerHost: 1, DialContext: c.dial}
 	return c
 }
@@ -290,7 +293,7 @@ func (c *client) doHTTP(r request) (int, bool, error) {
 }
 
 func (c *client) doWS(r request) (int, bool, error) {
-	d := websocket.Dialer{TLSClientConfig: c.cfg, HandshakeTimeout: 30 * time.Second, NetDialContext: c.dial}
+	d := websocket.Dialer{TLSClientConfig: c.wcfg, HandshakeTimeout: 30 * time.Second, NetDialContext: c.dial}
 	h := http.Header{}
 	for k, v := range r.header {
 		h.Set(k, v)
